@@ -1,6 +1,8 @@
 import Deb822Verif.Lemmas.RelParseField
 /-! The read accessors of the lossless reader on the tree of a well-formed field: they expose
     exactly `FieldA.view` / `FieldA.substvars` (C10, stage 3). -/
+set_option linter.unusedSimpArgs false
+set_option linter.unusedVariables false
 namespace Deb822Verif.Rel
 open Deb822Verif Node RelSpec
 
@@ -329,44 +331,41 @@ theorem version_rel (r : RelA) (tail : List Tok) (hr : r.ok = true) :
 
 /-! ### architectures -/
 
-def idF (c : RNode) : Option Str :=
-  match c with
-  | .tok k t => if k = .IDENT then some t else none
-  | .node _ _ => none
-
-theorem idF_gap (g : Gap) : (tks (gapToks g)).filterMap idF = [] := by
-  induction g with
+theorem archStep_gap (g : Gap) (st : Bool × List Str) : (tks (gapToks g)).foldl archStep st = st := by
+  induction g generalizing st with
   | nil => rfl
-  | cons p g ih => cases p <;> simpa [gapToks, GapPiece.tok, tks, tk, idF] using ih
+  | cons p g ih => cases p <;> simpa [gapToks, GapPiece.tok, tks, tk, archStep] using ih st
 
-theorem idF_items (is : List Item) : (tks (itemsToks is)).filterMap idF = is.map Item.name := by
-  induction is with
-  | nil => rfl
+theorem archStep_items (is : List Item) (acc : List Str) :
+    (tks (itemsToks is)).foldl archStep (false, acc) = (false, acc ++ is.map Item.text) := by
+  induction is generalizing acc with
+  | nil => simp [itemsToks]
   | cons i is ih =>
-    simp only [itemsToks, List.map_cons, List.flatten_cons, tks_append, List.filterMap_append] at ih ⊢
-    rw [ih]
-    cases hn : i.neg <;> simp [Item.toks, hn, idF_gap, tk, idF, List.filterMap_append]
+    simp only [itemsToks, List.map_cons, List.flatten_cons, tks_append, List.foldl_append] at ih ⊢
+    cases hn : i.neg with
+    | false =>
+      simp only [Item.toks, hn, Bool.false_eq_true, ↓reduceIte, List.append_nil, tks_append,
+        List.foldl_append, archStep_gap]
+      simp [tk, archStep, ih, Item.text, hn]
+    | true =>
+      simp only [Item.toks, hn, ↓reduceIte, tks_append, List.foldl_append, archStep_gap]
+      simp [tk, archStep, ih, Item.text, hn]
 
 theorem architectures_rel (r : RelA) (tail : List Tok) :
-    architectures (r.node tail) = r.archs.map fun a => a.items.map Item.name := by
+    architectures (r.node tail) = r.archs.map fun a => a.items.map Item.text := by
   rw [RelA.node_eq']
   simp only [architectures, firstChildNode, childNodes_node, cn_cons_tok, cn_append, cn_aqNodes,
     cn_verNodes, cn_archNodes, cn_profsNodes, cn_tks]
   cases ha : r.archs with
   | none => simp
   | some a =>
-    have : (tks (archBody a)).filterMap idF = a.items.map Item.name := by
-      simp [archBody, Bracket.body, List.filterMap_append, idF_items, idF_gap, tk, idF]
+    have : ((tks (archBody a)).foldl archStep (false, [])).2 = a.items.map Item.text := by
+      simp only [archBody, Bracket.body, tks_cons, tks_append, List.foldl_cons, List.foldl_append]
+      have e1 : archStep (false, []) (tk (Kind.L_BRACKET, ['['])) = (false, []) := by simp [tk, archStep]
+      rw [e1, archStep_items, archStep_gap]
+      simp [tk, archStep]
     simp [Node.children]
     exact this
-
-theorem items_text_of_noNeg (is : List Item) (h : is.any Item.neg = false) :
-    is.map Item.name = is.map Item.text := by
-  induction is with
-  | nil => rfl
-  | cons i is ih =>
-    simp only [List.any_cons, Bool.or_eq_false_iff] at h
-    simp [Item.text, h.1, ih h.2]
 
 /-! ### profiles -/
 
@@ -456,7 +455,7 @@ theorem fold_items (is : List Item) (hok : ∀ i ∈ is, i.ok = true) (hl : late
 
 theorem profileGroup_bracket (p : Bracket) (hp : p.ok = true) :
     profileGroup (Node.node .PROFILES (tks (profBody p))) = p.items.map Item.profile := by
-  obtain ⟨_, _, _, h4, h5⟩ := (Bracket.ok_iff p).1 hp
+  obtain ⟨_, _, h4, h5⟩ := (Bracket.ok_iff p).1 hp
   have h := fold_items p.items h4 h5 ([], []) (fun i _ => Or.inr rfl)
   have hpost := flush_fold_ws (gapToks p.post) (gapToks_ws _) ((tks (itemsToks p.items)).foldl profileStep ([], []))
   simp only [profileGroup, Node.children, profBody, Bracket.body, tks_cons, tks_append, List.foldl_cons,
@@ -482,17 +481,11 @@ theorem profiles_rel (r : RelA) (tail : List Tok) (hr : r.ok = true) :
   intro p hp
   exact profileGroup_bracket p (hps p hp)
 
-/-- all the accessors on the RELATION node of a well-formed relation without negated architecture -/
-theorem accRelation_rel (r : RelA) (tail : List Tok) (hr : r.ok = true) (hn : r.hasNegatedArch = false) :
+/-- all the accessors on the RELATION node of a well-formed relation -/
+theorem accRelation_rel (r : RelA) (tail : List Tok) (hr : r.ok = true) :
     accRelation (r.node tail) = some r.view := by
-  have ha : architectures (r.node tail) = r.archs.map fun a => a.items.map Item.text := by
-    rw [architectures_rel]
-    cases hra : r.archs with
-    | none => rfl
-    | some a =>
-      have : a.items.any Item.neg = false := by simpa [RelA.hasNegatedArch, hra] using hn
-      simp [items_text_of_noNeg _ this]
-  simp [accRelation, name_rel, version_rel r tail hr, archqual_rel, ha, profiles_rel r tail hr, RelA.view]
+  simp [accRelation, name_rel, version_rel r tail hr, archqual_rel, architectures_rel,
+    profiles_rel r tail hr, RelA.view]
 
 
 /-! ### entries, alternatives, substitution variables -/
@@ -502,20 +495,19 @@ theorem cn_rel_node (k : Kind) (r : RelA) (t : List Tok) (cs : List RNode) :
   unfold RelA.node; exact cn_cons_node _ _ _ _
 
 theorem relations_alts (r : RelA) (rest : List AltA) (post : Gap) (fl : Follow)
-    (hr : r.ok = true ∧ r.hasNegatedArch = false)
-    (hrest : ∀ a ∈ rest, a.rel.ok = true ∧ a.rel.hasNegatedArch = false) :
+    (hr : r.ok = true) (hrest : ∀ a ∈ rest, a.rel.ok = true) :
     (cn .RELATION (altsNodes r rest post fl).1).mapM accRelation
       = some (r.view :: rest.map fun a => a.rel.view) := by
   induction rest generalizing r with
   | nil =>
     simp only [altsNodes]
-    (repeat' split) <;> simp [cn_rel_node, accRelation_rel r _ hr.1 hr.2]
+    (repeat' split) <;> simp [cn_rel_node, accRelation_rel r _ hr]
   | cons a as ih =>
     have ih' := ih a.rel (hrest a (by simp)) (fun b hb => hrest b (by simp [hb]))
     simp only [altsNodes]
-    split <;> simp [cn_rel_node, accRelation_rel r _ hr.1 hr.2, ih']
+    split <;> simp [cn_rel_node, accRelation_rel r _ hr, ih']
 
-def segRelsOk (s : Seg) : Prop := ∀ r ∈ s.entry.rels, r.ok = true ∧ r.hasNegatedArch = false
+def segRelsOk (s : Seg) : Prop := ∀ r ∈ s.entry.rels, r.ok = true
 
 theorem cn_entry_seg (s : Seg) (fl : Follow) :
     cn .ENTRY (s.nodes fl) = match s.entry with
@@ -539,8 +531,8 @@ theorem entry_view (s : Seg) (fl : Follow) (hs : segRelsOk s) :
   | empty => simp [EntryA.view]
   | substvar p ps => simp [EntryA.view]
   | alts r rest =>
-    have hr : r.ok = true ∧ r.hasNegatedArch = false := hs r (by simp [he, EntryA.rels])
-    have hrest : ∀ a ∈ rest, a.rel.ok = true ∧ a.rel.hasNegatedArch = false := fun a ha => hs a.rel (by
+    have hr : r.ok = true := hs r (by simp [he, EntryA.rels])
+    have hrest : ∀ a ∈ rest, a.rel.ok = true := fun a ha => hs a.rel (by
       simp only [he, EntryA.rels, List.mem_cons, List.mem_map]; exact Or.inr ⟨a, ha, rfl⟩)
     simp [relations, childNodes_node, relations_alts r rest s.post fl hr hrest, EntryA.view]
 
@@ -608,30 +600,23 @@ theorem substvars_segs (ss : List Seg) :
       simp only [segsNodes, cn_append, cn_cons_tok, List.map_append, key, ih, List.filterMap_cons]
       cases s.entry.substText <;> rfl
 
-/-- C10 stage 3: the accessors on `tree` give `view` (no negated architecture: F-C10-2) -/
-theorem accEntries_field (f : FieldA) (h : f.WF) (hn : f.hasNegatedArch = false) :
-    accEntries f.tree = some f.view := by
+/-- C10 stage 3: the accessors on `tree` give `view` -/
+theorem accEntries_field (f : FieldA) (h : f.WF) : accEntries f.tree = some f.view := by
   have hok : ∀ s ∈ f.segs, s.ok = true := by
     simpa [FieldA.WF, FieldA.ok, List.all_eq_true] using h
   have hall : ∀ s ∈ f.segs, segRelsOk s := by
     intro s hs r hr
     have hso := ((Seg.ok_iff s).1 (hok s hs)).2.2.1
-    constructor
-    · cases he : s.entry with
-      | empty => simp [he, EntryA.rels] at hr
-      | substvar p ps => simp [he, EntryA.rels] at hr
-      | alts r0 rest =>
-        rw [he] at hso hr
-        simp only [EntryA.ok, Bool.and_eq_true, List.all_eq_true] at hso
-        simp only [EntryA.rels, List.mem_cons, List.mem_map] at hr
-        rcases hr with rfl | ⟨a, ha, rfl⟩
-        · exact hso.1
-        · exact ((AltA.ok_iff a).1 (hso.2 a ha)).2.2
-    · have : f.rels.any RelA.hasNegatedArch = false := hn
-      rw [List.any_eq_false] at this
-      have hm : r ∈ f.rels := by
-        simp only [FieldA.rels, List.mem_flatMap]; exact ⟨s, hs, hr⟩
-      simpa using this r hm
+    cases he : s.entry with
+    | empty => simp [he, EntryA.rels] at hr
+    | substvar p ps => simp [he, EntryA.rels] at hr
+    | alts r0 rest =>
+      rw [he] at hso hr
+      simp only [EntryA.ok, Bool.and_eq_true, List.all_eq_true] at hso
+      simp only [EntryA.rels, List.mem_cons, List.mem_map] at hr
+      rcases hr with rfl | ⟨a, ha, rfl⟩
+      · exact hso.1
+      · exact ((AltA.ok_iff a).1 (hso.2 a ha)).2.2
   simpa [accEntries, entries, FieldA.tree, childNodes_node, FieldA.view] using accEntries_segs f.segs hall
 
 theorem substvars_field (f : FieldA) : substvars f.tree = f.substvars := by
